@@ -18,6 +18,7 @@ package boltz
 
 import (
 	"bytes"
+	"context"
 	"fmt"
 	"github.com/openziti/foundation/v2/errorz"
 	"github.com/openziti/foundation/v2/stringz"
@@ -1068,6 +1069,19 @@ func (index *fkDeleteCascadeConstraint) ProcessBeforeDelete(ctx *IndexingContext
 		}
 
 		if index.cascadeType == CascadeDelete {
+			// a reference cycle (or self reference) would re-enter this cascade for the same entity
+			// without end: entities stay present until their own delete completes
+			key := cascadeKey{constraint: index, id: string(ctx.RowId)}
+			inProgress := cascadesInProgress(ctx.Ctx)
+			if _, found := inProgress[key]; found {
+				ctx.ErrHolder.SetError(errors.Errorf("cascade delete of %v with id %v reached itself through a reference cycle on %v.%v",
+					index.symbol.GetLinkedType().GetSingularEntityType(), string(ctx.RowId),
+					index.symbol.GetStore().GetEntityType(), index.symbol.GetName()))
+				return
+			}
+			inProgress[key] = struct{}{}
+			defer delete(inProgress, key)
+
 			cursor := targetStore.IterateValidIds(ctx.Tx(), filter)
 			for cursor.IsValid() {
 				if ctx.ErrHolder.SetError(targetStore.DeleteById(ctx.Ctx, string(cursor.Current()))) {
@@ -1088,4 +1102,28 @@ func (index *fkDeleteCascadeConstraint) Initialize(*bbolt.Tx, errorz.ErrorHolder
 
 func (index *fkDeleteCascadeConstraint) CheckIntegrity(MutateContext, bool, func(error, bool)) error {
 	return nil
+}
+
+type cascadeKey struct {
+	constraint *fkDeleteCascadeConstraint
+	id         string
+}
+
+type cascadesInProgressKey struct{}
+
+// cascadesInProgress returns the cascading deletes currently running in this mutate context
+func cascadesInProgress(ctx MutateContext) map[cascadeKey]struct{} {
+	if current := ctx.Context(); current != nil {
+		if result, ok := current.Value(cascadesInProgressKey{}).(map[cascadeKey]struct{}); ok {
+			return result
+		}
+	}
+	result := map[cascadeKey]struct{}{}
+	ctx.UpdateContext(func(current context.Context) context.Context {
+		if current == nil {
+			current = context.Background()
+		}
+		return context.WithValue(current, cascadesInProgressKey{}, result)
+	})
+	return result
 }
